@@ -12,9 +12,11 @@ import OpmVerif.Proofs.LexSafe
 import OpmVerif.Proofs.Tok
 import OpmVerif.Proofs.Scan
 import OpmVerif.Proofs.RawConsts
+import OpmVerif.Proofs.LexMirror
+import OpmVerif.Proofs.RawKw
 
 namespace OpmVerif.Props.C01
-open OpmVerif.Lex OpmVerif.Tok OpmVerif.Scan
+open OpmVerif.Lex OpmVerif.Tok OpmVerif.Scan OpmVerif.RawKw
 
 def b (s : String) : Bytes := s.toUTF8.toList
 
@@ -39,6 +41,16 @@ theorem cleaned_line_ignores_comment (l c : Bytes) (s : UInt8) (hs : isSep s = t
 example : BalancedNoComment (b "WELSPECS 'P--1' 'G' 1 /") ∧ (b "WELSPECS 'P--1' 'G' 1 /").getLast? ≠ some 45 := by decide +kernel
 example : ClosedQuotes (b " 'P--1' 'G' 1* /") ∧ isSep 9 = true := by decide +kernel
 example : cleanLine (b "  'P--1'\t'G' 1* / \t-- it's a comment '") = b "'P--1'\t'G' 1* /" := by decide +kernel
+
+/-- The recursion of `find_terminator` as written in Parser.cpp (`std::find` for the
+terminator, `std::find_if` for the first quote, `std::find` for the closing quote, recursive
+call behind it) computes exactly the quote-aware state machine the theorems above are
+about — for every byte string, for `--` and for `/`; fuel `length + 1` always suffices. -/
+theorem find_terminator_is_the_state_machine (l : Bytes) :
+    stripCommentsM l = stripComments l ∧ delAfterFirstSlashM l = delAfterFirstSlash l :=
+  ⟨stripCommentsM_eq l, delAfterFirstSlashM_eq l⟩
+
+example : stripCommentsM (b "A 'x--y' \"--\" -- c 'd") = b "A 'x--y' \"--\" " := by decide +kernel
 
 /-! ### blanks, tabs, commas, CR at line ends; blank and comment-only lines -/
 
@@ -128,6 +140,29 @@ theorem leading_separators_ignored (s rest : Bytes) (next : UInt8) (hsep : ∀ x
 example : tokState none (b " 'P 1' 'G'") ≠ some true := by decide +kernel
 example : tokenize (b " 'P 1' 'G'" ++ b " " ++ b "3 4") 47 = tokenize (b " 'P 1' 'G'" ++ b ",\t\r\n  " ++ b "3 4") 47 := by decide +kernel
 example : tokenize (b " 'P 1' 'G',\t\r\n  3 4") 47 = [b "'P 1'", b "'G'", b "3", b "4"] := by decide +kernel
+
+/-- `assemble_linebreak`: while a keyword is being assembled (RawKeyword state `k`, record
+buffer `buf`), a line `a ++ s ++ b` may be written as the two lines `a`, `b` (`s` a
+separator run outside quotes, no terminating slash in `a`, neither part mistaken for the
+next keyword while the keyword could already be complete): the raw keyword that results —
+records as token lists, termination — and the lines left for the next keyword are equal. -/
+theorem assemble_linebreak (recog : Bytes → Bool) (k : Kw) (hraw : k.raw = false)
+    (buf gap a s rest' : Bytes) (rest : List Bytes)
+    (hane : a ≠ []) (hbne : rest' ≠ []) (hs : s ≠ []) (hsep : ∀ c ∈ s, isSep c = true)
+    (ha : BalancedNoSlash a) (hout : tokState none (extendBuf buf gap a) ≠ some true)
+    (hra : (k.canComplete && recog (makeDeckName a)) = false)
+    (hrb : (k.canComplete && recog (makeDeckName rest')) = false) :
+    feedLines recog k buf gap ((a ++ s ++ rest') :: rest) = feedLines recog k buf gap (a :: rest' :: rest) :=
+  OpmVerif.RawKw.assemble_linebreak recog k hraw buf gap a s rest' rest hane hbne hs hsep ha hout hra hrb
+
+def demoKw : Kw := { sizeType := .slashTerminated, raw := false, records := [], minSize := 0, fixedSize := 0,
+                     numTables := 0, curTables := 0, tempFinished := false, finished := false }
+
+example : BalancedNoSlash (b "'P 1' 'G'") ∧ tokState none (extendBuf [] [] (b "'P 1' 'G'")) ≠ some true := by decide +kernel
+example : feedLines (fun _ => false) demoKw [] [] [b "'P 1' 'G'  3 4 /", b "/"] =
+          feedLines (fun _ => false) demoKw [] [] [b "'P 1' 'G'", b "3 4 /", b "/"] := by decide +kernel
+example : (feedLines (fun _ => false) demoKw [] [] [b "'P 1' 'G'", b "3 4 /", b "/"]).map (·.1.records) =
+          some [[b "'P 1'", b "'G'", b "3", b "4"]] := by decide +kernel
 
 /-! ### repeat counts and trailing defaults -/
 
